@@ -22,7 +22,14 @@
 //!    interior mutability (`OnceLock`, `OnceCell`, `Mutex`, `RwLock`, `Cell`,
 //!    `RefCell`, `UnsafeCell`, atomics) inside the structs / enums of the crate
 //!    that the static's type mentions, inlined by name across `src/` — state of a
-//!    table entry that can change after the entry was inserted.
+//!    table entry that can change after the entry was inserted;
+//!  * `nameSources`: for every arm of the `match ty.description` in
+//!    `TypeChecker::rust_type_to_roto_type` (src/typechecker/mod.rs — the function
+//!    that turns the Rust signature of every registered function / constant into
+//!    Roto types): where the Roto NAME of a registered type comes from — the
+//!    runtime's own list (`runtime.get_runtime_type(..)`), anything else
+//!    (`.foreign`: the process-global entry, a cache), or no name at all
+//!    (`.structural`: the arm only recurses).
 use crate::find;
 use proc_macro2::{TokenStream, TokenTree};
 use quote::ToTokens;
@@ -345,6 +352,51 @@ fn entry_cells(parsed: &[(String, syn::File)], ty: &str) -> usize {
     cells
 }
 
+/// the arms of `match ty.description` in `TypeChecker::rust_type_to_roto_type`
+fn name_sources(repo: &Path) -> Result<Vec<(String, &'static str)>, String> {
+    let file = find::parse(repo, "src/typechecker/mod.rs")?;
+    struct F {
+        block: Option<syn::Block>,
+    }
+    impl<'ast> Visit<'ast> for F {
+        fn visit_impl_item_fn(&mut self, f: &'ast syn::ImplItemFn) {
+            if f.sig.ident == "rust_type_to_roto_type" && !skip_attrs(&f.attrs) {
+                self.block = Some(f.block.clone());
+            }
+        }
+    }
+    let mut f = F { block: None };
+    f.visit_file(&file);
+    let block = f.block.ok_or("src/typechecker/mod.rs: fn rust_type_to_roto_type not found")?;
+    struct M {
+        arms: Vec<(String, &'static str)>,
+        seen: usize,
+    }
+    impl<'ast> Visit<'ast> for M {
+        fn visit_expr_match(&mut self, m: &'ast syn::ExprMatch) {
+            let scrutinee = m.expr.to_token_stream().to_string().replace(' ', "");
+            if !scrutinee.ends_with(".description") {
+                syn::visit::visit_expr_match(self, m);
+                return;
+            }
+            self.seen += 1;
+            for arm in &m.arms {
+                let pat = arm.pat.to_token_stream().to_string().replace(' ', "");
+                let body = idents_of(arm.body.to_token_stream());
+                let names = body.iter().any(|i| i == "TypeName" || i == "Name");
+                let own = body.windows(2).any(|w| w[0] == "runtime" && w[1] == "get_runtime_type");
+                self.arms.push((pat, if !names { ".structural" } else if own { ".ownList" } else { ".foreign" }));
+            }
+        }
+    }
+    let mut m = M { arms: vec![], seen: 0 };
+    m.visit_block(&block);
+    if m.seen != 1 {
+        return Err(format!("src/typechecker/mod.rs: rust_type_to_roto_type has {} matches over `.description` (expected 1)", m.seen));
+    }
+    Ok(m.arms)
+}
+
 pub fn c12globals(repo: &Path) -> Result<String, String> {
     let mut files = vec![];
     rs_files(&repo.join("src"), &mut files)?;
@@ -416,6 +468,10 @@ pub fn c12globals(repo: &Path) -> Result<String, String> {
             cells
         ));
     }
+    s.push_str("]\n\n/-- where `TypeChecker::rust_type_to_roto_type` takes the Roto name of a registered type from, per arm of its match over `ty.description` -/\ndef nameSources : List NameSource := [");
+    let arms = name_sources(repo)?;
+    let txt: Vec<String> = arms.iter().map(|(p, k)| format!("\n  /- {p} -/ {k}")).collect();
+    s.push_str(&txt.join(","));
     s.push_str("]\n\nend RotoV.Gen.C12Globals\n");
     Ok(s)
 }
